@@ -172,11 +172,16 @@ where
         let max_chroma =
             LuvBounds::from_lightness(color.l.clone()).max_chroma_at_hue(color.hue.clone());
 
-        Lchuv::new(
-            color.l,
-            color.saturation * max_chroma * T::from_f64(0.01),
-            color.hue,
-        )
+        // Black has no chroma to scale and no valid boundaries. This is the
+        // same limit as in the HSLuv reference implementation.
+        let l: f64 = color.l.clone().into();
+        let chroma = if l < 0.00000001 {
+            T::from_f64(0.0)
+        } else {
+            color.saturation * max_chroma * T::from_f64(0.01)
+        };
+
+        Lchuv::new(color.l, chroma, color.hue)
     }
 }
 
